@@ -140,19 +140,19 @@ WIRE = (' E2 wire stage: real NodeHosts on the real file system over dragonboat\
         'all verified inside the user state machine (altered data must never reach it), plus the history oracle and the comparison of every replica with the replay of the committed log; hosts stop gracefully in this stage.')
 
 EXTRA_TEXT = {
- 'C02': ' E2 chaos stage (node level): over the apply records of every state machine incarnation of a lifetime of real NodeHosts under faults and power losses, an index is applied with one value only, the final lists are equal on all replicas and every replica equals the replay of the committed log.',
+ 'C02': ' E2 chaos stage (node level): over the apply records of every state machine incarnation of a lifetime of real NodeHosts under faults and power losses, an index is applied with one value only, the final lists are equal on all replicas and every replica equals the replay of the committed log. Half of the E1 cases that keep the raft state in a real log store use Tan (closed and reopened at every restart; what the reopened store reports is compared with what was saved, and the replica runs on it). In the E2 chaos-type stages snapshot images are compressed by all, none or some of the replicas, and a third of the cases run with small byte limits on the transport\'s send queues and the replicas\' receive queues.',
  'C01': WIRE + ' E2 learner stage (single voter + non-voting replica, power loss of the voter between sending Replicate and persisting): a proposal that ended without a result must not be visible on the non-voting replica only.',
  'C03': ' E2 members stage: LeaderUpdated events of every host of real NodeHosts during concurrent membership changes, leader isolation and leader transfer feed a single-valued (shard, term) -> leader map. E1: in a third of the cases a quarter of the applied membership changes run one step-worker iteration (with the ticks that piled up) after the state machine side of the change and before node.ApplyConfigChange hands it to the raft core (the two workers only meet at raftMu); a campaign launched in such a step is a violation.',
  'C04': ' E2 replay stage: power loss of a follower while it is being caught up by snapshot - at the exit of RecoverFromSnapshot, at the entry of the Sync that follows it (on-disk state machines), at the entry / exit of its own SaveSnapshot, a few milliseconds into the repair; it must restart (no panic) with everything it acknowledged; a replica that went through a recovery and differs from the replay of the committed log is reported to C04 as well.',
  'C07': ' E2 members stage (node level): 40-70 concurrent valid and invalid membership requests through several hosts of real NodeHosts under leader isolation / transfer / loss; the committed log is read back through QueryRaftLog, its config change entries are judged in log order by the reference of the stated rules, and the membership reported by every running replica as well as every definite request outcome must agree (entries the statement does not decide adopt the requester\'s outcome, else the case is not judged). E1: in a third of the cases a quarter of the applied membership changes run one step-worker iteration (with the ticks that piled up) after the state machine side of the change and before node.ApplyConfigChange hands it to the raft core (the two workers only meet at raftMu); a campaign launched in such a step is a violation.',
- 'C08': WIRE + ' E4 chunks stage (power loss after every receiver script): a snapshot that was finalized and announced to the node must be durable byte for byte. Power loss of the follower during catch-up by snapshot (see C04). Directed compaction-back scenario: user requested snapshots whose compaction index moves back and forth (larger CompactionOverhead, explicit CompactionIndex) under writes; nothing may crash, every replica equals the replay of the log. Directed restart-during-send (the sender of a three-chunk image over a slow link records a newer snapshot and is restarted in-process) and restart-during-save (100 in-process restarts under continuous snapshot requests) scenarios. Directed restart-during-receive scenario (the receiver of the three-chunk image is restarted in-process after the first chunk; its start-up cleanup removes the receiving directory).',
+ 'C08': WIRE + ' E4 chunks stage (power loss after every receiver script): a snapshot that was finalized and announced to the node must be durable byte for byte. Power loss of the follower during catch-up by snapshot (see C04). Directed compaction-back scenario: user requested snapshots whose compaction index moves back and forth (larger CompactionOverhead, explicit CompactionIndex) under writes; nothing may crash, every replica equals the replay of the log. Directed restart-during-send (the sender of a three-chunk image over a slow link records a newer snapshot and is restarted in-process) and restart-during-save (100 in-process restarts under continuous snapshot requests) scenarios. Directed restart-during-receive scenario (the receiver of the three-chunk image is restarted in-process after the first chunk; its start-up cleanup removes the receiving directory). Directed two-lagging-streams scenario: two followers of an on-disk shard of 5 voters lag beyond the compacted log together and are reconnected together, SaveSnapshot dwells so that the second stream request is refused while the first runs; both must be up to date within 2000 ticks of their own clocks. The restart-during-send / restart-during-receive scenarios and the new cut-during-transfer scenario (the link of the receiving host is cut while the rest of a three-chunk image is on its way; PreVote on, so that the leader that started the transfer has to repeat it) end with a verdict in ticks: the follower whose transfer was disturbed is up to date within 4000 ticks of its own clock once every link is up and the shard completes proposals.',
  'C11': ' E5 twins stage: below the node, a replica that restarts from its own snapshot, installs a file snapshot or is streamed one must have been delivered exactly the committed entries (through the snapshot or through Update, never both, never neither); on-disk state machines are never handed an entry at or below the index returned by Open; in half of the overlapped saves of a concurrent state machine an apply batch is already queued behind the lock when PrepareSnapshot returns.',
  'C12': ' One NoOP session object per host is kept across restarts; directed double in-process restart of a replica (the next incarnation makes its first proposals while the previous incarnation\'s proposals are replayed slowly); expiry is decided in ticks of the accepting replica (timeout + 300 ticks), log queries included (timeout 0); PreVote in half of the cases; during the expiry drain of half of the cases one host is cut off and sent requests of every kind (log queries must still be answered). Three clients issue Propose / ReadIndex and release the request after 0-12 ms without taking its result (an object released with an unconsumed result goes back to the pool; whoever gets it next must not see that result).',
  'C13': WIRE + ' The frames stage includes frames whose payload CRC32 or header CRC32 is a boundary value of the checksum field (0, 2^32-1, 1, 2^31; four command bytes solved over GF(2)), each with the full set of damages.',
  'C14': WIRE + ' snapcheck/rw ends every batch with a concurrent phase: 8 readers load 6 images (1.5-3 blocks and small ones) at overlapping times with PRNG read sizes while 2 writers produce and verify new images; every load must be byte-identical.',
  'C15': WIRE + ' The chunks stage runs on a strict file system and ends every script with a power loss (finalized, announced snapshots must survive byte for byte).',
  'C16': ' Node level (E2 replay stage): whenever a host comes back - after a power loss at step-worker points, at call boundaries of the user state machine (snapshot save / recovery / sync), at the log store boundary (a snapshot record that became durable ahead of the durable commit index) or at arbitrary moments, or after a graceful stop - the real start-up cleanup (snapshotter.processOrphans) is run on the reopened log store before the replica starts and the directory oracle is applied: only the recorded snapshot remains, complete and loadable, no temporary, flagged or unrecorded directory. E4 chunks stage: power loss after every receiver script, a finalized and announced snapshot must survive byte for byte.',
- 'C17': ' A quarter of the E1 cases run with rate limiting (MaxInMemLogSize 2-18 KB, padded proposals, the mini-node holds proposals back while the peer reports RateLimited as node.go does). Directed E2 case: 2 voters + witness, snapshots covering the AddWitness entry, the follower host restarts, the leader host stays down - the follower must lead with the witness within 400 ticks and complete a proposal. A third of the E2 progress cases run with rate limiting (MaxInMemLogSize 8-72 KB, commands up to 1.5 KB, a slowly applying voter, bursts of writers; proposals refused with ErrSystemBusy are counted).',
+ 'C17': ' A quarter of the E1 cases run with rate limiting (MaxInMemLogSize 2-18 KB, padded proposals, the mini-node holds proposals back while the peer reports RateLimited as node.go does). Directed E2 case: 2 voters + witness, snapshots covering the AddWitness entry, the follower host restarts, the leader host stays down - the follower must lead with the witness within 400 ticks and complete a proposal. A third of the E2 progress cases run with rate limiting (MaxInMemLogSize 8-72 KB, commands up to 1.5 KB, a slowly applying voter, bursts of writers; proposals refused with ErrSystemBusy are counted). Directed prefixes of the fifth session: two followers of an on-disk shard that need a streamed snapshot at the same time (the second request is refused while the first stream runs), and a snapshot transfer disturbed by an in-process restart of the receiver or by a cut of its link (PreVote on): the lagging replica catches up within 2000 / 4000 ticks of its own clock.',
  'C06': ' E2 readstorm stage: two more clients on the slow follower issue ReadIndex and release the request without taking its result (one every 10-30 ms): a read that gets such a pooled object must still be confirmed and wait for its index.',
  'C10': ' In every second fault workload the last SaveRaftState carries up to three entries of 40-70 KB (one Tan record of several 32 KB blocks, a large Pebble batch); every file-system operation of that save is a fault point in the quick tier too.',
 }
